@@ -3,6 +3,7 @@ package main
 // C16: stop groups, frontend life-cycles and reload against the real code.
 
 import (
+	"github.com/chihaya/chihaya/pkg/metrics"
 	"crypto/rsa"
 	"github.com/chihaya/chihaya/pkg/timecache"
 	"crypto/tls"
@@ -658,10 +659,14 @@ func runC16(c *Ctx) {
 		}
 		logicStop(c, spec, r.Intn(n+1))
 	}
-	for _, sc := range []string{"bad-hook", "bad-posthook", "bad-store", "bad-option", "bad-option-nan", "bad-lists", "good", "good-hooks"} {
+	for _, sc := range []string{"bad-hook", "bad-posthook", "bad-store", "bad-option", "bad-option-nan", "bad-lists", "good", "good-hooks", "good-metrics"} {
 		lifeBinary(c, sc)
 	}
 	cleanupBinary()
+	for i := 0; i < 3; i++ {
+		lifeMetrics(c, false)
+		lifeMetrics(c, true)
+	}
 	lifeStoreStop(c)
 	lifeStoreStop(c)
 	k := c.N / 40
@@ -683,4 +688,47 @@ func runC16(c *Ctx) {
 		lifeUDP(c, "traffic", 0)
 		lifeReload(c, 1+r.Intn(6))
 	}
+}
+
+// life.metrics: the standalone metrics server (pkg/metrics), a member of the stop group of cmd/chihaya: it serves the
+// Prometheus endpoint, its Stop completes and closes the port — also when Stop comes right after NewServer, before the
+// serving goroutine has got to listen.
+func lifeMetrics(c *Ctx, immediate bool) {
+	op := "life.metrics immediate=" + b01(immediate)
+	c.Begin(op)
+	obs := func() (o string) {
+		defer func() {
+			if p := recover(); p != nil {
+				o = "PANIC " + strings.Fields(fmt.Sprint(p))[0]
+			}
+		}()
+		port := freePort()
+		addr := fmt.Sprintf("127.0.0.1:%d", port)
+		srv := metrics.NewServer(addr)
+		served := "-"
+		if !immediate {
+			served = "0"
+			cl := &http.Client{Timeout: time.Second, Transport: &http.Transport{DisableKeepAlives: true}}
+			for i := 0; i < 100; i++ {
+				if resp, err := cl.Get("http://" + addr + "/metrics"); err == nil {
+					ok := resp.StatusCode == 200
+					resp.Body.Close()
+					if ok {
+						served = "1"
+					}
+					break
+				}
+				time.Sleep(20 * time.Millisecond)
+			}
+		}
+		stopped, errs := waitStop(srv.Stop(), 3*time.Second)
+		time.Sleep(150 * time.Millisecond)
+		listening := false
+		if conn, err := net.DialTimeout("tcp", addr, 200*time.Millisecond); err == nil {
+			conn.Close()
+			listening = true
+		}
+		return fmt.Sprintf("served=%s stopped=%s errs=%d listening=%s", served, b01(stopped), len(errs), b01(listening))
+	}()
+	c.Emit(op, obs)
 }
